@@ -101,6 +101,14 @@ fn pass_through(control: &Value, payload: Option<&Value>) -> Vec<u8> {
     b
 }
 
+fn atom_hash(a: &str) -> u16 {
+    let mut h: u32 = 0x811c9dc5;
+    for b in a.bytes() {
+        h = (h ^ b as u32).wrapping_mul(0x0100_0193);
+    }
+    (h ^ (h >> 16)) as u16
+}
+
 struct Built {
     stream: Vec<u8>,
     /// (control, payload, multi_fragment) of every valid message in order, sentinel last
@@ -128,31 +136,29 @@ fn build(c: &Case) -> Built {
                 expected.push((control, payload, false));
             }
             Form::Header(seed) => {
-                let mut k = seed;
-                let mut slot_of = |a: &str| {
-                    k = k.wrapping_mul(31).wrapping_add(a.len() as u16 + 7);
-                    Some(k % 2048)
-                };
+                // the slot follows from the atom's text (as in a real node: equal atoms meet their earlier entry again); half of
+                // the messages squeeze their atoms into six slots, so that slots are overwritten and re-used all the time
+                let space = if seed % 2 == 0 { 6 } else { 2048 };
+                let mut slot_of = |a: &str| Some(if a.starts_with("slot_") { 777 } else { (atom_hash(a).wrapping_add(seed >> 15)) % space });
                 let (b, _) = sender_encode(&control, payload.as_ref(), cache, &mut slot_of, &mut Canonical);
                 stream.extend_from_slice(&frame4(&b));
                 expected.push((control, payload, false));
             }
             Form::Fragmented(seed, cuts) => {
-                let before = cache.clone();
-                let mut k = seed;
-                let mut slot_of = |a: &str| {
-                    k = k.wrapping_mul(29).wrapping_add(a.len() as u16 + 3);
-                    Some(k % 2048)
-                };
-                let (b, _) = sender_encode(&control, payload.as_ref(), cache, &mut slot_of, &mut Canonical);
+                let space = if seed % 2 == 0 { 6 } else { 2048 };
+                let mut slot_of = |a: &str| Some(if a.starts_with("slot_") { 777 } else { (atom_hash(a).wrapping_add(seed >> 15)) % space });
+                let (b, refs) = sender_encode(&control, payload.as_ref(), cache, &mut slot_of, &mut Canonical);
                 let body_len = b.len() - 2;
                 let pts: Vec<usize> = cuts.iter().map(|p| (*p as usize * body_len) / 1000).collect();
                 let frames = fragment(&b, seq, &pts);
                 seq += 1;
                 let multi = frames.len() >= 2;
                 if multi {
-                    // do not let later messages depend on cache entries this message introduced
-                    *cache = before;
+                    // whether the receiver took this message's header in or not (reassembly garbles the message, C06-F1), the
+                    // sender no longer relies on the slots it wrote: it forgets them and will write them afresh
+                    for r in refs.iter().filter(|r| r.new) {
+                        cache.slots[r.slot as usize] = None;
+                    }
                 }
                 for f in frames {
                     stream.extend_from_slice(&frame4(&f));
@@ -490,7 +496,12 @@ pub fn oracle(c: &Case) -> Verdict {
 
 fn strategy() -> impl Strategy<Value = Case> {
     let term = || arb_value(GenCfg { depth: 3, size: 10, heavy: false, ..GenCfg::std() });
-    let big = prop_oneof![6 => term(), 1 => (1000usize..200_000).prop_map(|n| Value::binary(&vec![0xAB; n]))];
+    // (a few payloads draw their atoms from three names that all live in one cache slot: written, overwritten, referred to again)
+    let big = prop_oneof![
+        6 => term(),
+        1 => (1000usize..200_000).prop_map(|n| Value::binary(&vec![0xAB; n])),
+        2 => prop::collection::vec(prop::sample::select(vec!["slot_a", "slot_b", "slot_c"]), 1..3).prop_map(|v| Value::Tuple(v.into_iter().map(Value::atom).collect())),
+    ];
     let form = prop_oneof![
         4 => Just(Form::PassThrough),
         4 => any::<u16>().prop_map(Form::Header),
@@ -520,14 +531,14 @@ fn strategy() -> impl Strategy<Value = Case> {
 
 pub fn run(run: &mut Run) {
     run.rule = "scripts of up to 14 items from a conforming sender model over a real loopback socket: every control-message kind of the protocol table with fields and payloads from the term space (a few bytes to \
-        200 KB), in pass-through form, with a distribution header (persistent sender atom cache, all segments) or split into 1..5 fragments, interleaved with ticks and with malformed frames (random bytes, truncated \
+        200 KB), in pass-through form, with a distribution header (persistent sender atom cache, all segments; slots follow from the atom text, half of the messages squeeze their atoms into six slots so that slots are overwritten and referred to again) or split into 1..5 fragments, interleaved with ticks and with malformed frames (random bytes, truncated \
         terms, wrong marker, short fragment headers, continuations of unknown sequences, non-tuple / empty-tuple control terms), the byte stream cut into arbitrary TCP writes; a sentinel ends each script; in 30% of the scripts the peer then starts one more frame and closes the connection inside it (between control term and payload, inside the length prefix, anywhere), which must not be returned as a message. \
         Both Connection::receive_message and receive_message_from_read_half are driven. Oracle: Ok results in order = valid messages in order, each once; at most one error per bad frame; no panic. \
         Non-trivial = >= 3 valid messages and a junk frame, tick, non-pass-through form or split stream"
         .into();
     run.assumptions = vec![
         "junk fragment frames use sequence ids disjoint from valid messages; random junk never poses as a distribution-header frame (it could legitimately rewrite atom-cache slots)".into(),
-        "after a message sent in >= 2 fragments the sender model does not rely on cache entries that message introduced (a conforming, if wasteful, sender)".into(),
+        "after a message sent in >= 2 fragments the sender model forgets the cache slots that message wrote and writes them afresh when it next needs them (conforming whether or not the receiver took the garbled message's header in)".into(),
         "if the receiver blocks, virtual time is advanced so that its own timeout ends the wait; timeouts are not counted as errors of a frame".into(),
     ];
     run.prop("receive-scripts", strategy, run.tier.pick(1500, 60_000), oracle);
